@@ -55,6 +55,10 @@ def run(ck: Check):
             cfg.pop("first", None)
         ex.one(st, cfg, tc, content(tc), v, clock=clock, stream="deadline")
     cli_validation(ck)
+    # the options are those GIVEN: a strategy object that has reduced a smaller / larger file before still honours
+    # --min / --max / --repeat exactly as a new one
+    from universe import reuse_universe
+    reuse_universe(ex, ck, strategies=("minimize", "minimize-around", "minimize-balanced"))
     ex.diff()
     return ck.finish(level="proof", rule=RULE)
 
